@@ -161,9 +161,12 @@ def build_ekf_sym(p, env, pn, sn, *, cse=True, k=None, max_dt=0.1, container="li
     from formak import python
 
     st = p.symtab()
-    process_noise = {st[c]: SymReal(pn[c]) for c in p.control}
+    def w(v):
+        return SymReal(v) if z3.is_expr(v) else float(v)
+
+    process_noise = {st[c]: w(pn[c]) for c in p.control}
     sens = p.sympy_sensors(reverse=reverse_sensors)
-    sensor_noises = {key: {r: SymReal(sn[key][r]) for r in sens[key]} for key in sens}
+    sensor_noises = {key: {r: w(sn[key][r]) for r in sens[key]} for key in sens}
     cfg = python.Config(common_subexpression_elimination=cse, innovation_filtering=k, max_dt_sec=max_dt)
     return python.compile_ekf(p.ui_model(container), process_noise, sens, sensor_noises, sym_calibration_map(p, env), config=cfg)
 
@@ -234,3 +237,12 @@ def gate_guard(fn):
         if str(e).startswith("Negative"):
             raise GateRejected(str(e)[:200]) from e
         raise
+
+
+class _SV:
+    def __init__(self, state, covariance):
+        self.state, self.covariance = state, covariance
+
+
+def pyh_sv(state, covariance):
+    return _SV(state, covariance)
